@@ -86,17 +86,20 @@ class ItemAttributeList(List[T]):
         list.insert(self, index, obj)
 
     def remove(self, obj: T) -> None:
-        list.remove(self, obj)
-
-        keys = [k for (k, v) in self._item_dict.items() if v == obj]
-        for key in keys:
-            del self._item_dict[key]
+        # remove the first item which is equal to the specified object
+        self.pop(list.index(self, obj))
 
     def pop(self, index: SupportsIndex = -1) -> T:
         result = list.pop(self, index)
-        keys = [k for (k, v) in self._item_dict.items() if v == result]
-        for key in keys:
-            del self._item_dict[key]
+
+        # only remove a single name of the item that was removed from
+        # the list: other items which are equal to the removed one
+        # (or further occurrences of it) stay in the list
+        for key, value in self._item_dict.items():
+            if value is result:
+                del self._item_dict[key]
+                break
+
         return result
 
     def extend(self, items: Iterable[T]) -> None:
